@@ -17,8 +17,8 @@ BUDGET = {"quick": {"cases": 4000, "soft_deadline": 220}, "thorough": {"cases": 
 RULE = (
     "case = (network n<=5 [6], history of 1-5 plain expansion calls and attractor queries with generated size/level/stack limits, "
     "mode): mode 'faults' re-runs the history once per solver call k=1..K with the k-th clingo solve() raising (ALL K fault "
-    "points of the history are enumerated); mode 'limits' runs it with max_motifs_per_node / attractor_candidates_limit in "
-    "{0,1,2,3,5}.  Oracle: after every False return or RuntimeError the diagram satisfies the C04 invariants against the "
+    "points of the history are enumerated); mode 'blocklimits' runs expand_block/build on motif-avoidant networks under candidate limits that make the motif-avoidance check give up, then relaxes them and demands every attractor exactly once; mode 'limits' runs it with max_motifs_per_node / attractor_candidates_limit in "
+    "{0,1,2,3,5} (and retained_set_optimization_threshold in {0,1,2} so that the candidate limit can fire on the default path).  Oracle: after every False return or RuntimeError the diagram satisfies the C04 invariants against the "
     "brute-force reference diagram and the C14 cache invariant; retrying the interrupted call without fault / with relaxed limits "
     "and finishing the history gives a diagram equal by value (spaces, edges, motif multisets, flags, cached candidates/seeds/"
     "sets) to the never-interrupted run; a True return means the call's contract is complete; a size-limited call returns False "
@@ -38,8 +38,29 @@ OPS_NOBLOCK = tuple(o for o in OPS if o != "block_plain")
 def _case(draw, max_n):
     nj = draw(gen.networks(max_n=max_n, core_weight=2, kinds=("maa", "deep", "diamond", "multi")))
     n = len(nj["names"])
-    mode = draw(st.sampled_from(("faults", "limits", "limits")))
+    mode = draw(st.sampled_from(("faults", "limits", "limits", "blocklimits")))
     c = {"net": nj, "mode": mode}
+    if mode == "blocklimits":
+        # block / scc expansion under candidate limits that make the motif-avoidance check give up, on networks
+        # with motif-avoidant attractors; afterwards the limits are relaxed and all attractors are asked for
+        c["net"] = draw(gen.networks(max_n=max_n, core_weight=8, kinds=("maa",)))
+        c["steps"] = [
+            draw(
+                st.sampled_from(
+                    (
+                        {"op": "block", "maa": True, "size": None, "optsrc": True, "exact": False},
+                        {"op": "block", "maa": True, "size": None, "optsrc": False, "exact": False},
+                        {"op": "block", "maa": True, "size": None, "optsrc": True, "exact": True},
+                        {"op": "build"},
+                    )
+                )
+            )
+        ]
+        c["config"] = {
+            "retained_set_optimization_threshold": draw(st.sampled_from((0, 1, 2))),
+            "attractor_candidates_limit": draw(st.sampled_from((1, 2, 3))),
+        }
+        return c
     if mode == "faults":
         c["steps"] = draw(ops.steps(OPS_NOBLOCK, n, 1, 4))
         c["config"] = {}
@@ -51,6 +72,9 @@ def _case(draw, max_n):
                 optional={
                     "max_motifs_per_node": st.sampled_from((0, 1, 2, 3, 5)),
                     "attractor_candidates_limit": st.sampled_from((0, 1, 2, 3, 5)),
+                    # a small threshold routes the candidate search through the regeneration branch, where the
+                    # candidate limit can fire with the default (greedy) options as well
+                    "retained_set_optimization_threshold": st.sampled_from((0, 1, 2)),
                 },
             )
         )
@@ -185,6 +209,8 @@ def run_case(case) -> Result:
     try:
         if case["mode"] == "faults":
             _run_faults(case, net, ref, steps, res)
+        elif case["mode"] == "blocklimits":
+            _run_blocklimits(case, net, res)
         else:
             _run_limits(case, net, ref, steps, res, plain_only)
     except Nonterminating:
@@ -265,6 +291,50 @@ def _run_faults(case, net, ref, steps, res):
     res.count("evaluated_fault_runs", K)
 
 
+def _run_blocklimits(case, net, res):
+    from biobalm import SuccessionDiagram
+
+    from ..bb import call
+
+    defaults = SuccessionDiagram.default_config()
+    h = ops.History(net, dict(case["config"]))
+    out = h.apply(case["steps"][0])
+    fired = out.kind == "runtime_error"
+    if fired and not _is_limit_error(out.exc):
+        res.violate(f"unexpected-RuntimeError:{case['steps'][0]['op']}", error=str(out.exc))
+        return
+    # whatever was cached under the limits must be right
+    if not sdcheck.check_cache(h.sd, net, res, f"blocklimits:after-{case['steps'][0]['op']}:cache"):
+        return
+    for kk in ("attractor_candidates_limit", "retained_set_optimization_threshold"):
+        h.sd.config[kk] = defaults[kk]
+    if out.kind == "ok" and out.ret in (True, None):
+        # the expansion reported completion: with relaxed limits every attractor must be found exactly once
+        att = net.attractors()
+        hits = {a: 0 for a in att}
+        for i in list(h.sd.expanded_ids()):
+            for s in call(h.sd.node_attractor_seeds, i, compute=True):
+                st_ = full_state(net, s)
+                a = net.attractor_of_state(st_) if st_ is not None else None
+                if a is not None:
+                    hits[a] += 1
+        for a, k in hits.items():
+            if k != 1:
+                res.violate(
+                    "blocklimits:attractor-not-exactly-once-after-relaxing",
+                    times=k,
+                    maa=net.is_maa(a),
+                    attractor=sorted(net.state_tuple(x) for x in a)[:3],
+                    config=str(case["config"]),
+                    step=ops.fmt_step(case["steps"][0]),
+                )
+                break
+    res.nontrivial = any(net.is_maa(a) for a in net.attractors())
+    res.label("blocklimits")
+    if fired:
+        res.label("limit-error-fired")
+
+
 def _run_limits(case, net, ref, steps, res, plain_only):
     from biobalm import SuccessionDiagram
 
@@ -305,7 +375,7 @@ def _run_limits(case, net, ref, steps, res, plain_only):
                     v[1].setdefault("step", idx)
                 return
             # relax the limits and repeat the interrupted call
-            for kk in ("max_motifs_per_node", "attractor_candidates_limit"):
+            for kk in ("max_motifs_per_node", "attractor_candidates_limit", "retained_set_optimization_threshold"):
                 h.sd.config[kk] = defaults[kk]
             out = h.apply(s)
             if out.kind != "ok":
@@ -319,7 +389,13 @@ def _run_limits(case, net, ref, steps, res, plain_only):
                     v[1].setdefault("config", str(cfg))
                 return
     if plain_only:
-        d = diff_dump(value_dump(h.sd, net), base, net)
+        # a small optimisation threshold legitimately selects another retained set, i.e. other (equally valid)
+        # candidate states; seeds (compared as attractors) and sets must still agree
+        ignore = ("candidates",) if "retained_set_optimization_threshold" in cfg else ()
+        if any(s.get("fallback") for s in steps):
+            # a limit error swallowed by symbolic_fallback=True legitimately leaves candidates unset and sets computed
+            ignore = ("candidates", "sets")
+        d = diff_dump(value_dump(h.sd, net), base, net, ignore)
         if d is not None:
             res.violate("resumed-differs-from-uninterrupted:limit", config=str(cfg), **d)
     res.count("limit_errors", fired)
